@@ -1,0 +1,98 @@
+// © Copyright 2025-2026, Query.Farm LLC - https://query.farm
+// SPDX-License-Identifier: Apache-2.0
+
+package vgirpc
+
+import (
+	"bytes"
+	"encoding/binary"
+	"fmt"
+)
+
+// ipcContinuationMarker prefixes every encapsulated IPC message written by
+// Arrow >= 0.15.
+const ipcContinuationMarker = 0xFFFFFFFF
+
+// checkIPCStreamFraming validates the encapsulated-message framing of the one
+// Arrow IPC stream that starts at data[0] and returns the offset just past its
+// end-of-stream marker (or len(data) when data runs out first).
+//
+// arrow-go's stream reader trusts the lengths a message declares: it allocates
+// the int32 metadata length, and then the int64 bodyLength found in the
+// flatbuffer Message, BEFORE reading either. A 4-byte body can therefore make
+// it allocate ~2 GiB, and a single flipped bit in bodyLength asks the runtime
+// for 2^47 bytes — a fatal out-of-memory that no recover() catches. When the
+// complete byte slice is in hand the true remaining size is known, so any
+// declared length that exceeds it is rejected here, without allocating,
+// before the bytes reach ipc.NewReader.
+//
+// The walk mirrors arrow-go's messageReader exactly (optional continuation
+// marker, legacy pre-0.15 framing without it, a zero length as end-of-stream,
+// the body following the already-padded metadata directly), so a stream that
+// arrow-go reads is never refused. Data that merely ends early declares
+// nothing oversized and is left for arrow-go to report.
+func checkIPCStreamFraming(data []byte) (end int, err error) {
+	pos := 0
+	for {
+		if len(data)-pos < 4 {
+			return len(data), nil
+		}
+		word := binary.LittleEndian.Uint32(data[pos:])
+		pos += 4
+		if word == 0 {
+			return pos, nil // legacy end-of-stream
+		}
+		if word == ipcContinuationMarker {
+			if len(data)-pos < 4 {
+				return len(data), nil
+			}
+			word = binary.LittleEndian.Uint32(data[pos:])
+			pos += 4
+			if word == 0 {
+				return pos, nil // end-of-stream
+			}
+		}
+		metaLen := int64(int32(word))
+		if metaLen < 0 || metaLen > int64(len(data)-pos) {
+			return 0, fmt.Errorf("IPC message at offset %d declares %d metadata bytes, %d remain",
+				pos, metaLen, len(data)-pos)
+		}
+		bodyLen, err := readMessageBodyLength(data[pos : pos+int(metaLen)])
+		if err != nil {
+			return 0, fmt.Errorf("IPC message metadata at offset %d: %w", pos, err)
+		}
+		pos += int(metaLen)
+		if bodyLen < 0 || bodyLen > int64(len(data)-pos) {
+			return 0, fmt.Errorf("IPC message at offset %d declares %d body bytes, %d remain",
+				pos, bodyLen, len(data)-pos)
+		}
+		pos += int(bodyLen)
+	}
+}
+
+// checkIPCFraming applies [checkIPCStreamFraming] to every IPC stream
+// concatenated in data (e.g. a stream header followed by the data stream).
+func checkIPCFraming(data []byte) error {
+	for pos := 0; pos < len(data); {
+		n, err := checkIPCStreamFraming(data[pos:])
+		if err != nil {
+			if pos > 0 {
+				return fmt.Errorf("IPC stream at offset %d: %w", pos, err)
+			}
+			return err
+		}
+		pos += n
+	}
+	return nil
+}
+
+// readRequestBytes is [ReadRequest] for a request body that is completely in
+// memory (every HTTP route): the framing is bounded against len(body) first.
+// A pipe or socket reader has no known size, so [ReadRequest] itself cannot
+// apply this check.
+func readRequestBytes(body []byte) (*Request, error) {
+	if _, err := checkIPCStreamFraming(body); err != nil {
+		return nil, fmt.Errorf("reading request IPC stream: %w", err)
+	}
+	return ReadRequest(bytes.NewReader(body))
+}
